@@ -28,8 +28,8 @@ HDR = ('From Coq Require Import List String Bool Arith.\nFrom PF Require Import 
 # ---- the documented option domains (written from the docstring of FST.options(), NOT from the check functions)
 NORMV = ('star', 'call')
 ARGS_AS = ('pos', 'arg', 'kw', 'arg_only', 'kw_only', 'pos_maybe', 'arg_maybe', 'kw_maybe', None)
-RE_LEAD = re.compile(r'^(all|block|none|)([+-]\d*)?$')
-RE_TRAIL = re.compile(r'^(all|block|none|line|)([+-]\d*)?$')
+RE_LEAD = re.compile(r'^(all|block|none|)([+-]\d*)?\Z')
+RE_TRAIL = re.compile(r'^(all|block|none|line|)([+-]\d*)?\Z')
 
 
 def isbool(v):
@@ -85,7 +85,8 @@ def doc_valid(name, v) -> bool:
 
 VALUES = [True, False, None, 'auto', 'strict', 'star', 'call', 'left', 'right', 0, 1, 2, 'all', 'block', 'none', 'line', 'all+1', 'block-',
           'none+', '+2', 'bad', '', (), ('all',), ('line',), ('all', 'line'), ('line', 'all'), ('block+1', 'none-2'), (True, False), (1, 2, 3),
-          'identifier', 'pos', 'kw_maybe', 'Auto', 'allx', ('all', 7), [1], '<', 'is not', 7, -3]
+          'identifier', 'pos', 'kw_maybe', 'Auto', 'allx', ('all', 7), [1], '<', 'is not', 7, -3,
+          'all\n', 'block+1\n', ('block+1\n', 'line\n'), ('all', 'line+2\n'), 'auto\n', 'strict\n', ' all', 'left\n', 'pos\n']
 
 
 def rv(v) -> str:
@@ -597,6 +598,93 @@ def stage_option_values_untouched(ctx: Ctx):
                             break
 
 
+def stage_calls_leave_defaults(ctx: Ctx):
+    """no API call - successful or failing, whatever it does with options inside - leaves the thread's option defaults changed, at top level and inside
+    options() blocks; and the objects passed to a call as arguments (option dicts for sub(), lists) are left as they were"""
+    import fst, copy as _copy
+    from fst.match import MName, MCall, M
+    FST = fst.FST
+
+    def reconcile_fail():
+        f = FST('x = {a: b, c: d}\ny = call(e)\n', 'exec')
+        f.mark()
+        f.a.body[1].value.args[0] = ast.Name(id='z', ctx=ast.Load())
+        f.a.body[0].value.keys.append(ast.Name(id='k', ctx=ast.Load()))
+        f.reconcile()
+
+    def reconcile_ok():
+        f = FST('x = {a: b, c: d}\ny = call(e)\n', 'exec')
+        f.mark()
+        f.a.body[1].value.args[0] = ast.Name(id='z', ctx=ast.Load())
+        f.a.body[0].value.keys[0] = ast.Constant(value=1)
+        f.reconcile()
+
+    def reconcile_fail_nested():
+        f = FST('def f():\n    x = [a, (b := c)]\n    return {p: q}\n', 'exec')
+        f.mark()
+        f.a.body[0].body[0].value.elts[0] = ast.Name(id='z', ctx=ast.Load())
+        f.a.body[0].body[1].value.values.append(ast.Name(id='k', ctx=ast.Load()))
+        f.reconcile()
+    shared_copy, shared_repl = {'pars': False}, {'pars': 'auto', 'trivia': False}
+    calls = [('reconcile-fails', reconcile_fail), ('reconcile-ok', reconcile_ok), ('reconcile-fails-deeper', reconcile_fail_nested),
+             ('put-unparsable', lambda: FST('x = a + b', 'exec').body[0].value.put('1 2 ?', 'left')), ('replace-wrong-kind', lambda: FST('x = a', 'exec').body[0].targets[0].replace('1 + ')),
+             ('sub-bad-template', lambda: FST('x = f(a)', 'exec').sub(MCall(), 'g(__FST_')), ('sub-ok', lambda: FST('x = f(a)', 'exec').sub(MCall(func=M(fn=...)), 'g(__FST_fn)')),
+             ('sub-option-dicts', lambda: FST('x = f(a)', 'exec').sub(MCall(func=M(fn=...)), 'g(__FST_fn)', copy_options=shared_copy, repl_options=shared_repl)),
+             ('cut-last', lambda: FST('x = [a]', 'exec').body[0].value.elts[0].cut()), ('bad-option-per-call', lambda: FST('x = a', 'exec').body[0].copy(trivia='everything')),
+             ('unknown-option-per-call', lambda: FST('x = a', 'exec').body[0].copy(no_such_option=1)), ('parse-error', lambda: FST('x = (', 'exec')),
+             ('par-unpar', lambda: FST('x = (a)', 'exec').body[0].value.unpar()), ('get-slice', lambda: FST('x = [a, b, c]', 'exec').body[0].value.get_slice(1, 3)),
+             ('verify-fails', lambda: (lambda f: (f.put_src('-', 0, 2, 0, 3, action=None), f.verify()))(FST('a + b', 'expr')))]
+    settings = [{}, {'pars': False, 'trivia': 'all+', 'norm_get': True}, {'coerce': True, 'pars_walrus': None, 'docstr': 'strict', 'trivia': (False, 'line'), 'pep8space': 1, 'norm': True}]
+    start = FST.get_options()
+    try:
+        for name, fn in calls:
+            for si, st in enumerate(settings):
+                for where in ('set_options', 'block', 'nested-blocks'):
+                    FST.set_options(**start)
+                    saved_args = _copy.deepcopy((shared_copy, shared_repl))
+                    outcome = 'ok'
+                    try:
+                        if where == 'set_options':
+                            FST.set_options(**st)
+                            before = FST.get_options()
+                            try:
+                                fn()
+                            except Exception as e:
+                                outcome = type(e).__name__
+                            after = FST.get_options()
+                        else:
+                            half = dict(list(st.items())[:len(st) // 2])
+                            rest = {k: v for k, v in st.items() if k not in half}
+                            with FST.options(**(st if where == 'block' else half)):
+                                with FST.options(**({} if where == 'block' else rest)):
+                                    before = FST.get_options()
+                                    try:
+                                        fn()
+                                    except Exception as e:
+                                        outcome = type(e).__name__
+                                    after = FST.get_options()
+                                    FST.set_options(**before)
+                            if FST.get_options() != start and after == before:
+                                after = ('after the blocks', FST.get_options())
+                                before = ('after the blocks', start)
+                    finally:
+                        FST.set_options(**start)
+                    ctx.tick(('calls-defaults', name, si, where), f'isolation:call-leaves-defaults:{"raises" if outcome != "ok" else "ok"}')
+                    if after != before:
+                        diff = {k: [repr(before[k]), repr(after[k])] for k in before if before[k] != after[k]} if isinstance(before, dict) else repr((before, after))[:300]
+                        ctx.violation(f'call-leaves-defaults|{name}|{outcome}', "an API call changed the thread's option defaults", {'call': name, 'outcome': outcome, 'defaults_set_by': where, 'settings': repr(st), 'changed': diff})
+                        break
+                    if (shared_copy, shared_repl) != saved_args:
+                        ctx.violation(f'call-argument-changed|{name}', 'an API call changed an object the caller passed as an argument', {'call': name, 'before': repr(saved_args), 'after': repr((shared_copy, shared_repl))})
+                        shared_copy.clear(); shared_copy.update(saved_args[0]); shared_repl.clear(); shared_repl.update(saved_args[1])
+                        break
+                else:
+                    continue
+                break
+    finally:
+        FST.set_options(**start)
+
+
 def run(ctx: Ctx):
     ctx.rule = ('(1) random option traces over 1-3 real threads in generated lock-step interleavings (set_options / options() enter / exit normal or with '
                 'exception / get_option with per-call dict), every option name incl. unknown and call-only names, values from a 43-value universe; model vs '
@@ -613,6 +701,7 @@ def run(ctx: Ctx):
     run_guarded(ctx, stage_domain_oracle)
     run_guarded(ctx, stage_call_isolation)
     run_guarded(ctx, stage_option_values_untouched)
+    run_guarded(ctx, stage_calls_leave_defaults)
     progs = [p for p in corpus(ctx.rng, gen=ctx.scale(10, 40)) if len(p) < 1500]
     run_guarded(ctx, stage_registry_commute_corr)
     run_guarded(ctx, stage_concurrent, progs)
